@@ -569,3 +569,112 @@ def pool_replay(path):
     for sig, what in al:
         print('ALARM', sig, what)
     return 1 if (codes or al) else 0
+
+
+# ------------------------------------------------------------------ C07 monitor (fake driver)
+def mon_known_C07(case, obs):
+    """D7: the consumed-result counter is credited to the first owner of a multi-part job,
+    not to the worker that sent the result"""
+    out = []
+    sent = {}
+    owner = {}
+    for n, ((e, o), (acked, done)) in enumerate(zip(zip(case['events'], obs), part_books(case, obs))):
+        if e[0] == 'ack' and e[2] is None:
+            owner[e[1]] = e[3]
+        if e[0] == 'ready' and n:
+            prev = obs[n - 1]['jobs']
+            if e[1] < len(prev) and prev[e[1]]['incache']:
+                p = owner.get(e[1]) if e[2] is None else acked.get(e[1], {}).get(e[2])
+                if p is not None:
+                    sent[p] = sent.get(p, 0) + 1
+        for w in o['workers']:
+            if w[4] is not None and w[4] > sent.get(w[0], 0):
+                out.append(('C07:result-credited-to-other-worker',
+                            'worker %d is credited %d consumed results but sent %d (event %d %s)'
+                            % (w[0], w[4], sent.get(w[0], 0), n, e)))
+                return out
+    return out
+
+
+MONITORS['C07'] = [mon_known_C07, mon_C01]
+MONITORS['C08'] = [mon_C01]
+
+
+# ------------------------------------------------------------------ real-pool scenarios
+def real_scenarios(res, pid, specs):
+    """run real pools (harness/realpool_driver.py) and judge the outcomes"""
+    outs = core.run_driver('realpool_driver.py', specs, timeout=300)
+    for sp, r in zip(specs, outs):
+        k = r.get('kind')
+
+        def alarm(sig, what):
+            res.alarms.append(dict(signature=sig, what=what, replay=dict(kind='real-pool-scenario', spec=sp, observed=r)))
+        if r.get('hang'):
+            alarm('%s:real-pool-%s-hangs' % (pid, k), 'scenario %s did not finish within its watchdog' % json.dumps(sp))
+            continue
+        if r.get('error'):
+            alarm('%s:real-pool-%s-error' % (pid, k), r['error'])
+            continue
+        cen = r.get('census') or {}
+        if k == 'close_join':
+            if r['results'] != r['expected']:
+                missing = sum(1 for x in r['results'] if x[0] == 'unresolved')
+                if sp.get('maxtasks') and missing and all(a == b for a, b in zip(r['results'], r['expected']) if a[0] != 'unresolved'):
+                    alarm('C07:queued-jobs-dropped-after-close',
+                          'Pool(%d, maxtasksperchild=%s): %d of %d jobs submitted before close() never resolved, join() took %ss'
+                          % (sp.get('n', 2), sp.get('maxtasks'), missing, len(r['results']), r['join_s']))
+                else:
+                    alarm('C07:results-differ-after-close', 'got %s expected %s' % (r['results'], r['expected']))
+            if r.get('map') is not None and r['map'] != r['map_expected']:
+                alarm('C07:map-result-differs-after-close', 'got %s' % r['map'])
+            if r.get('imap') is not None and r['imap'] != r['imap_expected']:
+                alarm('C07:imap-result-differs-after-close', 'got %s' % r['imap'])
+            if not r['late_refused']:
+                alarm('C07:job-accepted-after-close', 'apply_async after close() returned a handle')
+            if r['join_s'] > 20:
+                multi = 'multipart' if (sp.get('map') or sp.get('imap')) else 'apply-only'
+                alarm('C07:join-waits-out-consumption-guard-' + multi, 'join() took %ss with %s' % (r['join_s'], json.dumps(sp)))
+            if cen.get('workers_alive') or cen.get('supervisor') or cen.get('task_handler') or cen.get('result_handler'):
+                alarm('C07:left-behind-after-join', 'census after join(): %s' % cen)
+        elif k == 'terminate':
+            if r['terminate_s'] > 15:
+                alarm('C08:terminate-slow', 'terminate() took %ss' % r['terminate_s'])
+            if r['second_terminate_s'] > 2:
+                alarm('C08:second-terminate-slow', 'second terminate() took %ss' % r['second_terminate_s'])
+            if r['done_intact'] != ['ok', 42]:
+                alarm('C08:delivered-result-changed', 'result delivered before terminate(): %s' % r['done_intact'])
+            late = r.get('census_late') or {}
+            if any(late.get(x) for x in ('workers_alive', 'supervisor', 'task_handler', 'result_handler', 'timeout_handler')):
+                alarm('C08:left-behind-after-terminate', 'census 1.5 s after terminate(): %s' % late)
+            elif any(cen.get(x) for x in ('workers_alive', 'task_handler', 'result_handler', 'timeout_handler')):
+                alarm('C08:left-behind-at-terminate-return', 'census when terminate() returned: %s' % cen)
+            elif cen.get('supervisor'):
+                alarm('C08:supervisor-outlives-terminate', 'supervisor thread still alive when terminate() returned (gone 1.5 s later)')
+        elif k == 'hard_timeout':
+            if r['outcome'][:2] != ['exc', 'TimeLimitExceeded']:
+                alarm('C05:real-hard-limit-not-enforced', 'outcome %s' % r['outcome'])
+            elif r['failed_after_s'] > sp.get('hard', 1) + 4:
+                alarm('C05:real-hard-limit-late', 'failed after %ss' % r['failed_after_s'])
+            if r['old_worker_alive']:
+                alarm('C05:timed-out-worker-still-alive', 'the worker that ran the job still exists')
+            if r['later'] != ['ok', 10]:
+                alarm('C05:pool-unusable-after-hard-limit', 'a later job on a %d-process pool: %s' % (sp.get('n', 1), r['later']))
+        elif k == 'soft_timeout':
+            if r['outcome'] != ['ok', 'caught']:
+                alarm('C06:real-soft-limit-not-raised-in-task', 'outcome %s' % r['outcome'])
+        elif k == 'worker_lost':
+            if r['outcome'][:2] != ['exc', 'WorkerLostError'] or 'signal %d' % sp.get('sig', 9) not in ' '.join(r['outcome'][2]):
+                alarm('C04:real-loss-not-reported', 'outcome %s' % r['outcome'])
+            if r['other'][0] != 'ok' or r['later'] != ['ok', 14] or r['size'] != 2:
+                alarm('C04:real-other-jobs-affected', 'other %s later %s size %s' % (r['other'], r['later'], r['size']))
+        elif k == 'recycle':
+            if r['unresolved']:
+                alarm('C09:real-jobs-lost-by-recycling', '%d jobs unresolved' % r['unresolved'])
+            if r['max_jobs_per_pid'] > r['quota']:
+                alarm('C09:real-quota-exceeded', 'a worker ran %d jobs, quota %d' % (r['max_jobs_per_pid'], r['quota']))
+    res.add_cov(evaluations=len(specs), distinct=len({json.dumps(s, sort_keys=True) for s in specs}), traces=len(specs),
+                samples=[dict(spec=specs[0], observed={k: v for k, v in outs[0].items() if k != 'spec'})],
+                rule='real billiard pools with real processes (one interpreter per scenario, watchdog): outcomes, wall times, '
+                     'process/thread census; validates runtime assumptions, never replaces a theorem',
+                real_pool_scenarios=len(specs))
+    return outs
